@@ -92,26 +92,6 @@ impl SymCurve {
         }
         ok
     }
-
-    /// sub-additive on its table: eta(a+b) <= eta(a)+eta(b); equivalently
-    /// s[i+j+1] >= s[i] + s[j] for all i,j with i+j+1 < n
-    pub fn subadditive(&self) -> bool {
-        let mut ok = true;
-        let mut i = 0;
-        while i < MAXN {
-            let mut j = 0;
-            while j < MAXN {
-                if i + j + 1 < self.n {
-                    if self.s[i + j + 1] < self.s[i] + self.s[j] {
-                        ok = false;
-                    }
-                }
-                j += 1;
-            }
-            i += 1;
-        }
-        ok
-    }
 }
 
 pub struct SymSteps {
